@@ -286,6 +286,22 @@ def synthetic_multiphase(family: str, prm, n: int, p_lo: float, p_hi: float, gri
             "mu_w": 0.4 + 0.05 * x,
             "So": (1 - Sw) * (0.4 + 0.6 * below),
         }
+    elif family == "condensate":
+        # gas condensate: single-phase gas at and above the dew point (So EXACTLY 0 there, the gas still
+        # carrying its vaporised oil: Rv > 0), retrograde liquid below it
+        xd = 0.45 + 0.4 * a
+        s = np.minimum(x / xd, 1.0)
+        d = {
+            "Bo": 1.2 + 0.5 * s,
+            "Bg": 0.003 + 0.03 / (1 + 40 * x),
+            "Bw": 1.04 - 0.02 * x,
+            "Rs": 200 + 2000 * c * s,
+            "Rv": 1e-4 * (0.5 + b) * (0.15 + 0.85 * s),
+            "mu_o": 1.0 - 0.5 * s,
+            "mu_g": 0.012 + 0.02 * x,
+            "mu_w": 0.4 + 0.05 * x,
+            "So": (1 - Sw) * 0.3 * (0.3 + c) * (1 - s) * (0.2 + s) / 0.36,
+        }
     else:
         raise KeyError(family)
     d["pressure"] = p
